@@ -1,5 +1,5 @@
 """Common core of C05 / C06 / C10 / C11: "accepted => verified, over everything the spec signs" (DESIGN.md section 3)."""
-from .. import flow, paths
+from .. import flow, inline, paths
 from ..facts import callee_def, short
 from ..report import AnchorMissing
 from ..roles import Roles
@@ -68,14 +68,23 @@ class Verifier:
         return {f for a, f in sl.fields if a == "SignatureContext"}
 
 
+def _constructs_cred(b):
+    return any(st["rv"]["k"] == "agg" and st["rv"].get("adt") == CRED_EXT for _, _, st in b.stmts())
+
+
 def find_verifiers(db):
-    vs = []
-    for b in db.grep("s3s::ops::signature::CredentialsExt"):
-        if b.crate != "s3s":
-            continue
-        if any(st["rv"]["k"] == "agg" and st["rv"].get("adt") == CRED_EXT for _, _, st in b.stmts()):
-            vs.append(Verifier(db, b))
-    return vs
+    """bodies that construct CredentialsExt, studied with their helper functions inlined (s3sv/inline.py); a helper that only builds the
+    value for a verifier is part of that verifier, not a verifier of its own"""
+    direct = [b for b in db.grep("s3s::ops::signature::CredentialsExt") if b.crate == "s3s" and _constructs_cred(b)]
+    cands = {b.name: b for b in direct}
+    for b in direct:
+        if inline.default_policy(db, None, None, b):
+            for cb, _, _ in db.callers_of(b.name):
+                if cb.crate == "s3s":
+                    cands.setdefault(cb.name, cb)
+    inl = {n: inline.inlined(db, b) for n, b in cands.items()}
+    helpers = {h for ib in inl.values() for h in getattr(ib, "inlined_from", [])}
+    return [Verifier(db, ib) for n, ib in sorted(inl.items()) if n not in helpers and _constructs_cred(ib)]
 
 
 def first_writes_from(body, edges, rw=None):
